@@ -521,6 +521,11 @@ func (f *Formatter) formatErrorStatement(stmt *ast.ErrorStatement) string {
 	defer bufferPool.Put(buf)
 
 	buf.Reset()
+	// status code is arbitrary: "error;"
+	if stmt.Code == nil {
+		buf.WriteString("error;")
+		return buf.String()
+	}
 	buf.WriteString("error " + f.formatExpression(stmt.Code).String())
 	// argument is arbitrary
 	if stmt.Argument != nil {
